@@ -80,6 +80,52 @@ type Outcome struct {
 	Races      []RaceReport // free-running mode: reports the race detector wrote during this run
 }
 
+// RealTimeDialTimeout reports that a real TCP connect of the SACK path ran into its deadline. That
+// deadline is the one thing in a run that is measured on the machine's clock (the netpoller arms it in
+// real time even inside the bubble): a loopback connect only misses it when the worker process is
+// starved of CPU for hundreds of milliseconds. Such an execution says nothing about the code under
+// test; the worker executes the scenario again.
+// LeftoverConns reports that a connection was still waiting in a listener's accept queue when the
+// run ended. It happens legitimately (a cancelled run, a method that must not connect at all), and
+// it is also the trace a connect that missed its real-time deadline leaves behind: the kernel had
+// completed it, nobody came for it, and it may have been accepted in the place of a wanted one.
+func (o *Outcome) LeftoverConns() bool {
+	if o == nil || o.W == nil {
+		return false
+	}
+	for _, ls := range o.W.Lis {
+		for _, c := range ls.Conns {
+			if c.unexpected {
+				return true
+			}
+		}
+	}
+	return false
+}
+
+func (o *Outcome) RealTimeDialTimeout() bool {
+	if o == nil || o.W == nil {
+		return false
+	}
+	for _, ls := range o.W.Lis {
+		if ls.L.Closed {
+			return false // a scenario that wants the connect to fail
+		}
+	}
+	hit := func(s string) bool {
+		return strings.Contains(s, "dial tcp") && strings.Contains(s, "i/o timeout")
+	}
+	for _, c := range o.W.Calls {
+		if c.Err != nil && hit(c.Err.Error()) {
+			return true
+		}
+		if len(c.HTTPBody) > 0 && c.HTTPStatus != 200 && hit(string(c.HTTPBody)) {
+			return true
+		}
+	}
+	return false
+}
+
 // RaceReport is one report of the Go race detector.
 type RaceReport struct {
 	SiteA, SiteB string // first frame of the code under test in each of the two access stacks
